@@ -10,7 +10,10 @@ from contracts.schema import TYPE_ANY
 
 ARGS = 'ref:ArgumentList'
 
-contract('MatlabWrapper._wrap_args', params={'args': ARGS}, returns='str', loops={0: {'inv': []}})
+contract('MatlabWrapper._wrap_args', params={'args': ARGS}, returns='str',
+         under=['forall(0, len(args.args_list), lambda j: wf_tn_plain(args.args_list[j].ctype.typename))'],
+         result_is='ml_args_decl(args.args_list, len(args.args_list))',
+         loops={0: {'inv': ['arg_wrap == ml_args_decl(args.args_list, _i)']}})
 contract('FormatMixin._format_type_name',
          params={'self': 'ref:MatlabWrapper', 'type_name': 'ref:Typename', 'separator': 'str', 'include_namespace': 'bool',
                  'is_constructor': 'bool', 'is_method': 'bool'},
@@ -22,9 +25,16 @@ contract('FormatMixin._format_type_name',
                             'len(templates) == _i'], 'types': {'templates': 'list[str]'}},
                 2: {'inv': ['formatted_type_name == ml_head(type_name, separator, include_namespace, is_constructor, is_method) + ml_args_cat(type_name.instantiations, _i, separator, is_constructor, is_method)']}})
 contract('FormatMixin._format_return_type',
-         params={'return_type': 'ref:ReturnType', 'include_namespace': 'bool', 'separator': 'str'}, returns='str')
-contract('FormatMixin._format_class_name', params={'instantiated_class': 'ref:InstantiatedClass', 'separator': 'str'},
-         returns='str', assumed=True, note='type-only contract; not yet verified')
+         params={'self': 'ref:MatlabWrapper', 'return_type': 'ref:ReturnType', 'include_namespace': 'bool', 'separator': 'str'}, returns='str',
+         under=['wf_tn_plain(return_type.type1.typename)',
+                'wf_tn_plain(return_type.type2.typename) if not isinstance(return_type.type2, str) else True'],
+         result_is='ml_return_spelling(return_type, include_namespace, separator)')
+contract('FormatMixin._format_class_name', params={'self': 'ref:MatlabWrapper', 'instantiated_class': 'ref:InstantiatedClass', 'separator': 'str'},
+         returns='str', modifies=['alloc'],
+         # the namespaces of the class (outermost first) and its name, joined by the separator (mirrors the slice of the joined list)
+         result_is="old((''.join([separator + x for x in ([''] + ns_chain(instantiated_class.parent.parent) + "
+                   "([instantiated_class.parent.name] if instantiated_class.parent.name != '' else []))]) + separator)[2 * len(separator):] "
+                   "+ instantiated_class.name)")
 METHODISH = 'ref:Constructor|ref:Method|ref:StaticMethod|ref:GlobalFunction'
 
 
@@ -64,6 +74,7 @@ contract('MatlabWrapper.wrap_properties_block', params={'class_name': 'str', 'in
          returns='str', assumed=True, note='properties block text only; type-level contract')
 contract('MatlabWrapper.wrap_enum', params={'enum': 'ref:Enum'}, returns='tuple[str,str]',
          result_is="(enum.name + '.m', ml_enum_text(enum))")
-contract('FormatMixin._clean_class_name', params={'instantiated_class': 'ref:InstantiatedClass'}, returns='str')
+contract('FormatMixin._clean_class_name', params={'self': 'ref:MatlabWrapper', 'instantiated_class': 'ref:InstantiatedClass'}, returns='str',
+         result_is='instantiated_class.ctors[0].name if len(instantiated_class.ctors) != 0 else instantiated_class.name')
 
 import contracts.c06  # noqa: E402,F401  (the C06 contracts of the guard / marshalling emitters)
